@@ -1,19 +1,30 @@
 """C04  Lower-priority preferences are honoured only inside higher-priority bounds.
 
-Order-domain abstract interpretation (shared engine with C03):
+Order-domain abstract interpretation (shared engine with C03).  Nothing here depends on the names
+of locals, on statement order, on if/else vs early return vs conditional expression, on keyword vs
+positional arguments or on whether a piece of the sweep lives in a private helper: the roles of the
+two sweeps (running lower / upper bound, effective exclusion zone, target, loop variable) are bound
+by dataflow (`_c04_util.sweep_roles`), and every rule is a post-condition of an abstract run in
+which helpers of the analysed class are called.
+
   C04.SIB    one iteration of get_status and of _calc_target_power map the same running bounds and
-             proposal to the same new bounds on the conflict-free domain; get_status stops at
-             priorities <= the actor's own.
+             proposal to the same new bounds on the conflict-free domain; a proposal whose priority
+             is <= the actor's own leaves the reported bounds untouched (get_status stops there);
+             both prologues start from the same bounds and the same effective exclusion zone.
   C04.KEEP   carving the exclusion zone out of a range never cuts an admissible value
              (adjust_exclusion_bounds keeps every point of the range that is outside the open zone).
   C04.ADOPT  a preferred power that is admissible within the running bounds becomes the target
              unchanged; an inadmissible one is replaced by an admissible input value with no
              admissible candidate strictly between the two (nearest on its side).
-  C04.TIE    the two-sided case is decided by the distance test in the right orientation.
+  C04.TIE    in the two-sided case the chosen edge is the one the path's distance test proves to be
+             at most as far from the preferred power as the other edge.
   C04.NOOP   a proposal with neither power nor bounds leaves the target unchanged and changes the
              running bounds only by the (idempotent) zone carving.
-  C04.REPORT _Report.adjust_to_bounds applies the same clamp to the report's own fields, and
-             get_status reports the swept bounds with the system exclusion zone.
+  C04.STORE  whatever its shape (power / lower / upper bound present or not), the proposal handed to
+             calculate_target_power is a member of the bucket _calc_target_power is called with.
+  C04.REPORT _Report.adjust_to_bounds returns what clamp_to_bounds returns for the report's own
+             fields; get_status reports the swept bounds with the system exclusion zone; the
+             public `bounds` are those inclusion bounds.
 """
 from __future__ import annotations
 
@@ -21,15 +32,38 @@ import ast
 from typing import Any
 
 from ..engine.absint import Obj
+from ..engine.normalize import positional
 from ..engine.order import Atom, OrderInterp
 from ..engine.report import AnalysisError, Run
-from ..engine.resolver import Program, body_walk
-from ..engine.terms import Poly, TermEval
-from ..engine.util import canon_total, find_calls, u
-from .c03 import (
-    BASE, BOUNDS, MAT, SHAPES_ALL, _report_orderings, check_quantity_truthiness, in_zone,
-    loop_state_vars, may_fail, mk_excl, mk_proposal, split_sweep, synth,
+from ..engine.resolver import FuncInfo, Program, walk_no_nested
+from ..engine.terms import Poly
+from ._c04_util import (
+    STOPPED, LinInterp, StoreInterp, Sweep, compare_pairs, flip_strict, mirror, reach, splice, step_function, sweep_roles,
+    synth,
 )
+from .c03 import BASE, BOUNDS, MAT, _report_orderings, check_quantity_truthiness, mk_excl, mk_proposal
+
+CALC = f"{MAT}:Matryoshka._calc_target_power"
+CTP = f"{MAT}:Matryoshka.calculate_target_power"
+STAT = f"{MAT}:Matryoshka.get_status"
+OWN = 5  # the requesting actor's priority in the abstract runs
+
+
+def calc_sweep(prog: Program) -> Sweep:
+    fn = prog.func(CALC)
+    if len(fn.params) != 3:
+        raise AnalysisError(f"{fn.qual}: expected (self, proposals, system_bounds)")
+    sw = sweep_roles(prog, fn, 2, {fn.params[1]: []})
+    if sw.T is None:
+        raise AnalysisError(f"{fn.qual}: cannot bind the running target of the sweep")
+    return sw
+
+
+def stat_sweep(prog: Program) -> Sweep:
+    fn = prog.func(STAT)
+    if len(fn.params) != 4:
+        raise AnalysisError(f"{fn.qual}: expected (self, component_ids, priority, system_bounds)")
+    return sweep_roles(prog, fn, 3, {fn.params[1]: "ids", fn.params[2]: OWN})
 
 
 def admissible_alts(it: OrderInterp, c: Any, L: Any, U: Any, excl: Any) -> list[list[tuple[str, Any, Any]]]:
@@ -52,11 +86,34 @@ def possibly_admissible(it: OrderInterp, c: Any, L: Any, U: Any, excl: Any,
     return any(it.possible(a + (extra or [])) for a in alts)
 
 
+def possibly_inadmissible(it: OrderInterp, c: Any, L: Any, U: Any, excl: Any) -> bool:
+    """Can `c` lie outside [L, U] minus the open zone (zero excepted when the zone is inside the range)?
+    Complete negation of admissible_alts over the order facts of the run."""
+    if it.possible([("<", c, L)]) or it.possible([("<", U, c)]):
+        return True
+    if excl is None:
+        return False
+    zero = it.globals["__ZERO__"]
+    el, eu = excl.fields["lower"], excl.fields["upper"]
+    inzone = [("<", el, c), ("<", c, eu)]
+    return any(it.possible(inzone + [f]) for f in (("<", c, zero), ("<", zero, c), ("<", el, L), ("<", U, eu)))
+
+
+def _same(it: OrderInterp, a: Any, b: Any) -> bool:
+    if a is None or b is None:
+        return a is None and b is None
+    if isinstance(a, Atom) and isinstance(b, Atom):
+        return it.entails("=", a, b)
+    return a is b
+
+
 # ---------------------------------------------------------------------------------------------
 def check_keep(run: Run, prog: Program) -> None:
     fn = prog.func(f"{BOUNDS}:adjust_exclusion_bounds")
     run.analysed(fn.qual)
-    it = OrderInterp(prog, prog.module(BOUNDS))
+    if len(fn.params) != 3:
+        raise AnalysisError(f"{fn.qual}: expected (lower_bound, upper_bound, exclusion_bounds)")
+    it = LinInterp(prog, prog.module(BOUNDS))
     ctx: dict[str, Any] = {}
 
     def make_args() -> dict[str, Any]:
@@ -65,9 +122,11 @@ def check_keep(run: Run, prog: Program) -> None:
         it.assume("<=", L, U)
         excl = mk_excl(it, it.choose(2, "exclusion zone present") == 1)
         ctx.update(L=L, U=U, excl=excl)
-        return {"lower_bound": L, "upper_bound": U, "exclusion_bounds": excl}
+        return dict(zip(fn.params, (L, U, excl)))
 
     def post(res: Any) -> Any:
+        if not (isinstance(res, tuple) and len(res) == 2 and all(isinstance(r, Atom) for r in res)):
+            return ("shape", f"result {res!r} is not a pair of input values")
         lo, hi = res
         zero = it.globals["__ZERO__"]
         if lo is zero and hi is zero:
@@ -94,56 +153,38 @@ def check_keep(run: Run, prog: Program) -> None:
 
 # ---------------------------------------------------------------------------------------------
 def check_sib(run: Run, prog: Program) -> None:
-    calc = prog.func(f"{MAT}:Matryoshka._calc_target_power")
-    stat = prog.func(f"{MAT}:Matryoshka.get_status")
+    swc, sws = calc_sweep(prog), stat_sweep(prog)
+    calc, stat = swc.fn, sws.fn
     run.analysed(calc.qual)
     run.analysed(stat.qual)
-    mod = prog.module(MAT)
-    pro_c, loop_c, _ = split_sweep(calc)
-    # get_status: the loop is the last top-level For
-    body_s = [s for s in stat.node.body if not (isinstance(s, ast.Expr) and isinstance(s.value, ast.Constant))]
-    loops_s = [s for s in body_s if isinstance(s, ast.For)]
-    if len(loops_s) != 1:
-        raise AnalysisError(f"{stat.qual}: expected exactly one proposal loop")
-    loop_s = loops_s[0]
-    # priority cut: strictly higher priorities only
-    first = loop_s.body[0]
-    pv = u(loop_s.target)
-    ok = isinstance(first, ast.If) and canon_total(first.test) == ("<=", f"{pv}.priority", stat.params[2]) \
-        and len(first.body) == 1 and isinstance(first.body[0], ast.Break)
-    run.check(ok, "C04.SIB", stat.qual, first if isinstance(first, ast.If) else "priority cut",
-              "get_status does not stop at the first proposal whose priority is <= the actor's own "
-              "(an actor would be restricted by its own or lower-priority bounds, or not by an "
-              "equal-priority peer as the target computation is)", node=first, file=stat.file)
-    svars_c = loop_state_vars(pro_c, loop_c)
-    stepc = synth("step_calc", svars_c + [u(loop_c.target)], [ast.For(
-        target=ast.Name(id="_once", ctx=ast.Store()), iter=ast.List(elts=[ast.Constant(0)], ctx=ast.Load()),
-        body=loop_c.body, orelse=[])], ["lower_bound", "upper_bound"])
-    params_s = ["lower_bound", "upper_bound", "exclusion_bounds", stat.params[2], pv]
-    steps = synth("step_status", params_s, [ast.For(
-        target=ast.Name(id="_once", ctx=ast.Store()), iter=ast.List(elts=[ast.Constant(0)], ctx=ast.Load()),
-        body=loop_s.body, orelse=[])], ["lower_bound", "upper_bound"])
-    it = OrderInterp(prog, mod)
+    prio = stat.params[2]
+    stepc = step_function(swc, "step_calc", [swc.L, swc.U, STOPPED])
+    steps = step_function(sws, "step_status", [sws.L, sws.U, STOPPED])
+    it = LinInterp(prog, prog.module(MAT))
     ctx: dict[str, Any] = {}
     shapes = [(0, lo, hi) for lo in (0, 1) for hi in (0, 1)]
 
-    def make_args() -> dict[str, Any]:
+    def state(p_priority: int) -> None:
         it.globals["__ZERO__"] = Atom("ZERO")
         L, U = Atom("L"), Atom("U")
         it.assume("<=", L, U)
         excl = mk_excl(it, it.choose(2, "exclusion zone present") == 1)
         p = mk_proposal(it, shapes=shapes)
-        p.fields["priority"] = 5
+        p.fields["priority"] = p_priority
         ctx.update(L=L, U=U, excl=excl, p=p)
-        args = {v: None for v in svars_c}
-        args.update(lower_bound=L, upper_bound=U, target_power=it.globals["__ZERO__"],
-                    exclusion_bounds=excl)
-        args[u(loop_c.target)] = p
-        return args
+
+    def status_frame() -> dict[str, Any]:
+        return sws.frame(**{sws.L: ctx["L"], sws.U: ctx["U"], sws.X: ctx["excl"], prio: OWN, sws.pv: ctx["p"]})
+
+    # ---- (a) strictly higher priority: both sweeps narrow alike
+    def make_args() -> dict[str, Any]:
+        state(OWN + 1)
+        return swc.frame(**{swc.L: ctx["L"], swc.U: ctx["U"], swc.T: it.globals["__ZERO__"],
+                            swc.X: ctx["excl"], swc.pv: ctx["p"]})
 
     def post(res: Any) -> Any:
-        L1, U1 = res
-        L, U, p, excl = ctx["L"], ctx["U"], ctx["p"], ctx["excl"]
+        L1, U1, stop1 = res
+        L, U, p = ctx["L"], ctx["U"], ctx["p"]
         # conflict-free domain: max(L, pl) <= min(U, pu)
         pl = p.fields["bounds"].fields["lower"] or L
         pu = p.fields["bounds"].fields["upper"] or U
@@ -151,12 +192,16 @@ def check_sib(run: Run, prog: Program) -> None:
         hi = it.builtin("min", [U, pu], {}, calc.node)
         if it.cmp3(lo, hi, "conflict?") == ">":
             return None  # conflicting proposal: outside C04's quantifier
-        args = {"lower_bound": L, "upper_bound": U, "exclusion_bounds": excl,
-                stat.params[2]: 1, pv: p}
-        L2, U2 = it.call_node(steps, args)
+        L2, U2, stop2 = it.call_node(steps, status_frame())
+        if not (isinstance(L1, Atom) and isinstance(U1, Atom) and isinstance(L2, Atom) and isinstance(U2, Atom)):
+            return ("shape", f"new bounds ({L1!r}, {U1!r}) / ({L2!r}, {U2!r}) are not input values")
         bad = []
         if not (it.entails("=", L1, L2) and it.entails("=", U1, U2)):
             bad.append(f"target sweep gives ({L1}, {U1}) but the report sweep gives ({L2}, {U2})")
+        if stop1 is not stop2:
+            which = "report" if stop2 else "target"
+            bad.append(f"only the {which} sweep stops at this proposal: the bounds of the following "
+                       "(lower, still restricting) proposals are honoured by one sweep and not by the other")
         return ("bad", bad) if bad else None
 
     outs = it.explore(stepc, make_args, post)
@@ -165,28 +210,78 @@ def check_sib(run: Run, prog: Program) -> None:
     if len(outs) < 100:
         raise AnalysisError(f"C04.SIB: only {len(outs)} abstract paths")
     run.extra_cov.setdefault("abstract_paths", {})["sweep_agreement"] = len(outs)
-    # prologue agreement: both start from the system inclusion bounds and the same zone rule
-    def zone_rule(fn: Any) -> str:
-        for s in body_walk(fn.node):
-            if isinstance(s, ast.If) and "exclusion_bounds" in u(s.test) and "Power.zero()" in u(s.test):
-                return u(s.test).replace(" ", "")
-        return ""
-    run.check(zone_rule(calc) == zone_rule(stat) and zone_rule(calc) != "", "C04.SIB", stat.qual,
-              "same degenerate-zone rule in both sweeps",
-              "the two sweeps decide differently when the system exclusion zone is in force",
-              node=stat.node, file=stat.file)
+
+    # ---- (b) priority cut: proposals at or below the actor's own priority do not restrict it.  The
+    # sweep is in descending priority order (C03.ORD), so "stops at" and "skips" coincide.
+    for pp, what in ((OWN, "its own priority (an equal-priority peer)"), (OWN - 1, "a lower priority")):
+        def make_cut(pp: int = pp) -> dict[str, Any]:
+            state(pp)
+            return status_frame()
+
+        def post_cut(res: Any, what: str = what) -> Any:
+            L2, U2, _stop = res
+            if not (_same(it, L2, ctx["L"]) and _same(it, U2, ctx["U"])):
+                return ("bad", [f"a proposal with {what} changes the bounds reported to the actor from "
+                                f"({ctx['L']}, {ctx['U']}) to ({L2}, {U2}): get_status does not stop at the "
+                                "first proposal whose priority is <= the actor's own"])
+            return None
+
+        outs = it.explore(steps, make_cut, post_cut)
+        _report_orderings(run, "C04.SIB", stat, outs, "the report sweep ignores proposals with priority "
+                          "<= the actor's own (strictly higher priorities only)")
+        if len(outs) < 5:
+            raise AnalysisError(f"C04.SIB: only {len(outs)} abstract paths in the priority cut")
+
+    # ---- (c) prologue agreement: same initial bounds, same effective exclusion zone
+    proc = synth("prologue_calc", swc.pro, [swc.L, swc.U, swc.X])
+    pros = synth("prologue_status", sws.pro, [sws.L, sws.U, sws.X])
+
+    def make_sys() -> dict[str, Any]:
+        it.globals["__ZERO__"] = Atom("ZERO")
+        zero = it.globals["__ZERO__"]
+        sl, su = Atom("sysL"), Atom("sysU")
+        it.assume("<=", sl, zero)
+        it.assume("<=", zero, su)
+        excl = mk_excl(it, it.choose(2, "system exclusion bounds present") == 1, ("sel", "seu"))
+        sysb = Obj("SystemBounds", inclusion_bounds=Obj("Bounds", lower=sl, upper=su), exclusion_bounds=excl)
+        ctx.update(sysb=sysb, sexcl=excl)
+        args = swc.frame(**{calc.params[1]: [], swc.sys_param: sysb})
+        for v in swc.svars:
+            args.pop(v, None)
+        return args
+
+    def post_sys(res: Any) -> Any:
+        zero = it.globals["__ZERO__"]
+        args = sws.frame(**{stat.params[1]: "ids", prio: OWN, sws.sys_param: ctx["sysb"]})
+        for v in sws.svars:
+            args.pop(v, None)
+        res2 = it.call_node(pros, args)
+        if not (isinstance(res2, tuple) and len(res2) == 3):
+            return ("shape", f"get_status does not reach its sweep with inclusion bounds present ({res2!r})")
+        bad = []
+        for what, a, b in zip(("lower bound", "upper bound", "exclusion zone"), res, res2):
+            if not _same(it, a, b):
+                bad.append(f"the sweeps start from different values of the {what}: {a!r} / {b!r}")
+        sx = ctx["sexcl"]
+        if sx is not None and not (it.entails("=", sx.fields["lower"], zero) and it.entails("=", sx.fields["upper"], zero)):
+            if res[2] is not sx or res2[2] is not sx:
+                bad.append("a non-degenerate system exclusion zone is not in force in both sweeps")
+        return ("bad", bad) if bad else None
+
+    outs = it.explore(proc, make_sys, post_sys)
+    _report_orderings(run, "C04.SIB", stat, outs, "both sweeps start from the system inclusion bounds and "
+                      "decide alike whether the system exclusion zone is in force")
+    if len(outs) < 3:
+        raise AnalysisError(f"C04.SIB: only {len(outs)} abstract paths in the prologue comparison")
 
 
 # ---------------------------------------------------------------------------------------------
 def check_adopt(run: Run, prog: Program, tier: str) -> None:
-    fn = prog.func(f"{MAT}:Matryoshka._calc_target_power")
-    mod = prog.module(MAT)
-    pro, loop, _ = split_sweep(fn)
-    svars = loop_state_vars(pro, loop)
-    step = synth("step", svars + [u(loop.target)], [ast.For(
-        target=ast.Name(id="_once", ctx=ast.Store()), iter=ast.List(elts=[ast.Constant(0)], ctx=ast.Load()),
-        body=loop.body, orelse=[])], ["lower_bound", "upper_bound", "target_power"])
-    it = OrderInterp(prog, mod)
+    sw = calc_sweep(prog)
+    fn = sw.fn
+    assert sw.T is not None
+    step = step_function(sw, "step", [sw.L, sw.U, sw.T])
+    it = LinInterp(prog, prog.module(MAT))
     ctx: dict[str, Any] = {}
     shapes = [(1, 0, 0)] if tier == "quick" else [(1, lo, hi) for lo in (0, 1) for hi in (0, 1)]
     shapes_noop = [(0, 0, 0)]
@@ -199,21 +294,51 @@ def check_adopt(run: Run, prog: Program, tier: str) -> None:
             excl = mk_excl(it, it.choose(2, "exclusion zone present") == 1)
             p = mk_proposal(it, shapes=shapes_)
             ctx.update(L=L, U=U, T=T, excl=excl, p=p)
-            args = {v: None for v in svars}
-            args.update(lower_bound=L, upper_bound=U, target_power=T, exclusion_bounds=excl)
-            args[u(loop.target)] = p
-            return args
+            return sw.frame(**{sw.L: L, sw.U: U, sw.T: T, sw.X: excl, sw.pv: p})
         return make_args
+
+    def tie_verdict(T2: Atom) -> Any:
+        """Two-sided case (the preference lies strictly inside a zone whose both edges are usable):
+        the chosen edge must be proved at most as far from the preference as the other edge by a
+        linear fact the path has tested."""
+        L, U, excl, v = ctx["L"], ctx["U"], ctx["excl"], ctx["p"].fields["preferred_power"]
+        if excl is None:
+            return None
+        el, eu = excl.fields["lower"], excl.fields["upper"]
+        zero = it.globals["__ZERO__"]
+        two_sided = (it.entails("<", el, v) and it.entails("<", v, eu) and it.entails("<=", L, el)
+                     and it.entails("<=", eu, U) and (it.entails("<", v, zero) or it.entails("<", zero, v)))
+        if not two_sided:
+            return None
+        # W = (eu - v) - (v - el): W <= 0 iff the upper edge is at most as far as the lower edge
+        w = Poly.atom(eu.name) + Poly.atom(el.name) - Poly.atom(v.name).scale(2)
+        if it.entails("=", T2, eu):
+            side, need = "upper", w
+        elif it.entails("=", T2, el):
+            side, need = "lower", -w
+        else:
+            return ("bad", f"two-sided case: the target {T2} is neither edge of the exclusion zone")
+        if it.implied(need):
+            return ("ok", f"{side} edge chosen under {it.lin_facts}")
+        if not it.lin_facts:
+            return ("bad", f"two-sided case: the {side} edge of the zone is chosen without a distance test")
+        return ("bad", f"two-sided case: the {side} edge is chosen although the tested distance relation "
+                       f"({'; '.join(f'{p!r} {chr(60) if s else chr(60) + chr(61)} 0' for p, s in it.lin_facts)}) "
+                       "does not show it to be the closer one: the candidate farther from the preferred "
+                       "power is chosen, or the distance is not measured from the preferred power")
 
     def post_adopt(res: Any) -> Any:
         _L2, _U2, T2 = res
         L, U, excl, p = ctx["L"], ctx["U"], ctx["excl"], ctx["p"]
         v = p.fields["preferred_power"]
-        bad = []
+        bad: list[str] = []
         if not isinstance(T2, Atom):
-            return ("shape", f"target {T2!r} is not an input value")
+            return {"adopt": ("shape", f"target {T2!r} is not an input value"), "tie": None}
+        if T2 is not ctx["T"] and possibly_inadmissible(it, T2, L, U, excl):
+            bad.append(f"the new target {T2} can lie outside the running bounds ({L}, {U}) minus the "
+                       "exclusion zone: it is not an admissible value")
         if it.entails("=", T2, v):
-            return None
+            return {"adopt": ("bad", bad) if bad else None, "tie": None}
         # the preference was altered: it must not have been admissible
         if possibly_admissible(it, v, L, U, excl):
             bad.append(f"an admissible preferred power {v} is not adopted unchanged (target {T2})")
@@ -224,7 +349,7 @@ def check_adopt(run: Run, prog: Program, tier: str) -> None:
                     excl is not None and it.entails("<", excl.fields["lower"], L)
                     and it.entails("<", U, excl.fields["upper"])):
                 bad.append(f"preferred power {v} ignored although admissible values exist")
-            return ("bad", bad) if bad else None
+            return {"adopt": ("bad", bad) if bad else None, "tie": None}
         # nearest: no admissible candidate strictly between v and the chosen target
         cands = [L, U] + ([excl.fields["lower"], excl.fields["upper"]] if excl else [])
         for c in cands:
@@ -232,14 +357,38 @@ def check_adopt(run: Run, prog: Program, tier: str) -> None:
                 if possibly_admissible(it, c, L, U, excl, between, allow_zero=False):
                     bad.append(f"admissible value {c} lies strictly between the preference {v} and "
                                f"the chosen target {T2}")
-        return ("bad", sorted(set(bad))) if bad else None
+        return {"adopt": ("bad", sorted(set(bad))) if bad else None, "tie": tie_verdict(T2)}
 
     outs = it.explore(step, make(shapes), post_adopt)
+    ties = []
+    for o in outs:
+        if isinstance(o.post, dict):
+            if o.post["tie"] is not None:
+                ties.append((o, o.post["tie"]))
+            o.post = o.post["adopt"]
     _report_orderings(run, "C04.ADOPT", fn, outs, "an admissible preference is adopted unchanged, an "
                       "inadmissible one is replaced by the nearest admissible value on its side")
     if len(outs) < 60:
         raise AnalysisError(f"C04.ADOPT: only {len(outs)} abstract paths")
     run.extra_cov.setdefault("abstract_paths", {})["adopt_step"] = len(outs)
+    # ---- C04.TIE on the two-sided paths of the same exploration
+    if not ties:
+        raise AnalysisError(f"{fn.qual}: no abstract path reaches the two-sided clamp case")
+    sides = set()
+    for o, (kind, detail) in ties:
+        if kind == "ok":
+            sides.add(detail.split()[0])
+            run.ok("C04.TIE", f"{fn.qual}: path {o.decisions}")
+        else:
+            ordering = o.state.linear_extension() if o.state is not None else []
+            run.violation("C04.TIE", fn.qual, f"{fn.name} result {o.value!r}",
+                          f"{detail}; ordering {' < '.join('='.join(c) for c in ordering)}",
+                          node=fn.node, file=fn.file, ordering=ordering)
+    if not any(k != "ok" for _o, (k, _d) in ties) and sides != {"upper", "lower"}:
+        run.violation("C04.TIE", fn.qual, "two-sided case", f"only the {sorted(sides)} edge can ever be chosen "
+                      "in the two-sided case: the distance to the preferred power does not decide",
+                      node=fn.node, file=fn.file)
+    run.extra_cov.setdefault("abstract_paths", {})["two_sided"] = len(ties)
 
     def post_noop(res: Any) -> Any:
         L2, U2, T2 = res
@@ -249,8 +398,9 @@ def check_adopt(run: Run, prog: Program, tier: str) -> None:
             bad.append(f"a proposal without power and bounds changed the target to {T2}")
         adj = prog.func(f"{BOUNDS}:adjust_exclusion_bounds")
         La, Ua = it.call_func(adj, [L, U, excl], {})
-        same = it.entails("=", L2, L) and it.entails("=", U2, U)
-        carved = isinstance(La, Atom) and it.entails("=", L2, La) and it.entails("=", U2, Ua)
+        same = _same(it, L2, L) and _same(it, U2, U)
+        carved = isinstance(La, Atom) and isinstance(L2, Atom) and isinstance(U2, Atom) \
+            and it.entails("=", L2, La) and it.entails("=", U2, Ua)
         if not (same or carved):
             bad.append(f"a proposal without power and bounds changed the running bounds to ({L2}, {U2})")
         return ("bad", bad) if bad else None
@@ -262,133 +412,303 @@ def check_adopt(run: Run, prog: Program, tier: str) -> None:
         raise AnalysisError(f"C04.NOOP: only {len(outs)} abstract paths")
 
 
-def check_tie(run: Run, prog: Program) -> None:
-    fn = prog.func(f"{MAT}:Matryoshka._calc_target_power")
-    te = TermEval()
-    found = 0
-    for n in ast.walk(fn.node):
-        if not isinstance(n, ast.match_case):
-            continue
-        pat = n.pattern
-        if not (isinstance(pat, ast.MatchSequence) and len(pat.patterns) == 2 and all(
-                isinstance(p, ast.MatchAs) and p.name for p in pat.patterns)):
-            continue
-        low, high = pat.patterns[0].name, pat.patterns[1].name  # type: ignore[union-attr]
-        ifs = [s for s in n.body if isinstance(s, ast.If)]
-        if len(ifs) != 1:
-            continue
-        found += 1
-        t = ifs[0]
-        ok = False
-        detail = "distance test not recognised"
-        if isinstance(t.test, ast.Compare) and len(t.test.ops) == 1 and isinstance(
-                t.test.ops[0], (ast.Lt, ast.LtE, ast.Gt, ast.GtE)):
-            l, r = te.ev(t.test.left), te.ev(t.test.comparators[0])
-            d = l - r if isinstance(t.test.ops[0], (ast.Lt, ast.LtE)) else r - l  # d < 0 => true branch
-            pref = None
-            for a in d.atoms():
-                if a not in (low, high):
-                    pref = a
-            want = Poly.atom(high) + Poly.atom(low) - Poly.atom(pref or "?").scale(2)
-            true_sets = [u(s.value) for s in t.body if isinstance(s, ast.Assign)]
-            false_sets = [u(s.value) for s in t.orelse if isinstance(s, ast.Assign)]
-            if d == want:
-                ok = true_sets == [high] and false_sets == [low]
-            elif d == -want:
-                ok = true_sets == [low] and false_sets == [high]
-            detail = (f"`{u(t.test)}` selects {true_sets} / else {false_sets}: the candidate farther "
-                      "from the preferred power is chosen")
-            if pref is not None and "preferred_power" not in pref:
-                ok = False
-                detail = f"the distance is measured from `{pref}`, not from the preferred power"
-        run.check(ok, "C04.TIE", fn.qual, t.test, detail, node=t, file=fn.file)
-    if found != 1:
-        raise AnalysisError(f"{fn.qual}: two-sided clamp arm not found ({found})")
-
-
+# ---------------------------------------------------------------------------------------------
 def check_report(run: Run, prog: Program) -> None:
     fn = prog.func(f"{BASE}:_Report.adjust_to_bounds")
+    clamp = prog.func(f"{BOUNDS}:clamp_to_bounds")
     run.analysed(fn.qual)
-    calls = find_calls(fn.node, lambda c: u(c.func).endswith("clamp_to_bounds"))
-    ok = len(calls) == 1 and [u(a) for a in calls[0].args] == [
-        fn.params[1], "self._inclusion_bounds.lower", "self._inclusion_bounds.upper", "self._exclusion_bounds"]
-    run.check(ok, "C04.REPORT", fn.qual, calls[0] if calls else "clamp_to_bounds(...)",
-              "what an actor is told (adjust_to_bounds) is not the same clamp over the report's own "
-              "bounds that the manager applies", node=fn.node, file=fn.file)
-    rets = [n for n in body_walk(fn.node) if isinstance(n, ast.Return)]
-    ok = any(r.value is calls[0] for r in rets) if calls else False
-    run.check(ok, "C04.REPORT", fn.qual, "return clamp_to_bounds(...)", "the clamp result is not returned",
-              node=fn.node, file=fn.file)
-    # callee resolves to the same function the sweep uses
-    tgt = prog.resolve_name(fn.module, u(calls[0].func)) if calls else None
-    run.check(getattr(tgt, "qual", None) == f"{BOUNDS}:clamp_to_bounds", "C04.REPORT", fn.qual,
-              "resolved callee", "adjust_to_bounds does not resolve to _bounds.clamp_to_bounds",
-              node=fn.node, file=fn.file)
-    st = prog.func(f"{MAT}:Matryoshka.get_status")
-    reports = find_calls(st.node, lambda c: u(c.func) == "_Report")
-    ok = False
-    for c in reports:
-        kws = {k.arg: k.value for k in c.keywords}
-        ib = kws.get("_inclusion_bounds")
-        if isinstance(ib, ast.Call):
-            bk = {k.arg: u(k.value) for k in ib.keywords}
-            ok = bk == {"lower": "lower_bound", "upper": "upper_bound"} and \
-                u(kws.get("_exclusion_bounds")) == f"{st.params[3]}.exclusion_bounds"
-    run.check(ok, "C04.REPORT", st.qual, "_Report(_inclusion_bounds=Bounds(lower_bound, upper_bound), "
-              "_exclusion_bounds=system exclusion bounds)",
-              "the report does not carry the swept bounds together with the system exclusion zone",
-              node=st.node, file=st.file)
+    if len(fn.params) != 2:
+        raise AnalysisError(f"{fn.qual}: expected (self, power)")
+    it = LinInterp(prog, prog.module(BASE))
+    ctx: dict[str, Any] = {}
+
+    def make_args() -> dict[str, Any]:
+        it.globals["__ZERO__"] = Atom("ZERO")
+        v, L, U = Atom("v"), Atom("L"), Atom("U")
+        it.assume("<=", L, U)
+        excl = mk_excl(it, it.choose(2, "exclusion zone present") == 1)
+        rep = Obj("_Report", target_power=None, _inclusion_bounds=Obj("Bounds", lower=L, upper=U),
+                  _exclusion_bounds=excl)
+        ctx.update(v=v, L=L, U=U, excl=excl)
+        return {fn.params[0]: rep, fn.params[1]: v}
+
+    def post(res: Any) -> Any:
+        want = it.call_func(clamp, [ctx["v"], ctx["L"], ctx["U"], ctx["excl"]], {})
+        ok = isinstance(res, tuple) and isinstance(want, tuple) and len(res) == len(want) == 2 \
+            and all(_same(it, a, b) for a, b in zip(res, want))
+        if not ok:
+            return ("bad", [f"adjust_to_bounds gives {res!r} where the manager's clamp over the report's own "
+                            f"inclusion and exclusion bounds gives {want!r}"])
+        return None
+
+    outs = it.explore(fn.node, make_args, post)
+    _report_orderings(run, "C04.REPORT", fn, outs, "what an actor is told (adjust_to_bounds) is the same "
+                      "clamp over the report's own bounds that the manager applies")
+    if len(outs) < 40:
+        raise AnalysisError(f"{fn.qual}: only {len(outs)} abstract paths")
+
+    # ---- get_status hands out the swept bounds together with the system exclusion zone
+    sws = stat_sweep(prog)
+    st = sws.fn
     prop = prog.func(f"{BASE}:_Report.bounds")
-    rets = [n for n in body_walk(prop.node) if isinstance(n, ast.Return)]
-    run.check(len(rets) == 1 and u(rets[0].value) == "self._inclusion_bounds", "C04.REPORT", prop.qual,
-              "bounds -> _inclusion_bounds", "the public bounds are not the swept inclusion bounds",
-              node=prop.node, file=prop.file)
+    run.analysed(st.qual)
+    run.analysed(prop.qual)
+    pros = synth("prologue_status", sws.pro, [sws.L, sws.U, sws.X])
+    steps = step_function(sws, "step_status", [sws.L, sws.U, STOPPED])
+    it2 = LinInterp(prog, prog.module(MAT))
+    shapes = [(0, lo, hi) for lo in (0, 1) for hi in (0, 1)]
+
+    def make_status() -> dict[str, Any]:
+        it2.globals["__ZERO__"] = Atom("ZERO")
+        zero = it2.globals["__ZERO__"]
+        sl, su = Atom("sysL"), Atom("sysU")
+        it2.assume("<=", sl, zero)
+        it2.assume("<=", zero, su)
+        excl = mk_excl(it2, it2.choose(2, "system exclusion bounds present") == 1, ("sel", "seu"))
+        sysb = Obj("SystemBounds", inclusion_bounds=Obj("Bounds", lower=sl, upper=su), exclusion_bounds=excl)
+        props = []
+        if it2.choose(2, "a higher-priority proposal exists") == 1:
+            p = mk_proposal(it2, shapes=shapes)
+            p.fields["priority"] = OWN + 1
+            props.append(p)
+        so = sws.self_obj()
+        assert so is not None
+        so.fields["_component_buckets"] = {"ids": props}
+        ctx.update(sysb=sysb, sexcl=excl, props=props, so=so)
+        return {st.params[0]: so, st.params[1]: "ids", st.params[2]: OWN, st.params[3]: sysb}
+
+    def post_status(rep: Any) -> Any:
+        if not (isinstance(rep, Obj) and rep.cls == "_Report"):
+            return ("shape", f"get_status returns {rep!r}, not a _Report")
+        inc = rep.fields.get("_inclusion_bounds")
+        if not (isinstance(inc, Obj) and {"lower", "upper"} <= set(inc.fields)):
+            return ("bad", [f"the report's inclusion bounds are {inc!r}"])
+        args = sws.frame(**{st.params[1]: "ids", st.params[2]: OWN, st.params[3]: ctx["sysb"]})
+        args[st.params[0]] = ctx["so"]
+        for v in sws.svars:
+            args.pop(v, None)
+        L, U, X = it2.call_node(pros, args)
+        for p in ctx["props"]:
+            fr = sws.frame(**{sws.L: L, sws.U: U, sws.X: X, st.params[2]: OWN, sws.pv: p})
+            L, U, _stop = it2.call_node(steps, fr)
+        bad = []
+        if not (_same(it2, inc.fields["lower"], L) and _same(it2, inc.fields["upper"], U)):
+            bad.append(f"the report carries ({inc.fields['lower']}, {inc.fields['upper']}) but the sweep "
+                       f"ends with ({L}, {U})")
+        if rep.fields.get("_exclusion_bounds") is not ctx["sexcl"]:
+            bad.append("the report does not carry the system exclusion zone")
+        pub = it2.call_func(prop, [rep], {})
+        if pub is not inc:
+            bad.append("the public bounds are not the swept inclusion bounds")
+        return ("bad", bad) if bad else None
+
+    outs = it2.explore(st.node, make_status, post_status)
+    _report_orderings(run, "C04.REPORT", st, outs, "the report carries the swept bounds together with the "
+                      "system exclusion zone, and `bounds` are those inclusion bounds")
+    if len(outs) < 20:
+        raise AnalysisError(f"{st.qual}: only {len(outs)} abstract paths")
 
 
-CONTROLS = [
-    ("zone edge treated as inside", BOUNDS,
-     "    if exclusion_bounds.lower < lower_bound < exclusion_bounds.upper:",
-     "    if exclusion_bounds.lower <= lower_bound < exclusion_bounds.upper:", "C04.KEEP"),
-    ("priority cut uses <", MAT, "            if next_proposal.priority <= priority:",
-     "            if next_proposal.priority < priority:", "C04.SIB"),
-    ("report sweep narrows with the un-defaulted bound", MAT,
-     "            calc_lower_bound = max(lower_bound, proposal_lower)",
-     "            calc_lower_bound = max(upper_bound, proposal_lower)", "C04.SIB"),
-    ("tie test flipped", MAT,
-     "                            target_power = power_high\n                        else:\n                            target_power = power_low",
-     "                            target_power = power_low\n                        else:\n                            target_power = power_high",
-     "C04.TIE"),
-    ("adjust_to_bounds uses other bounds", BASE,
-     "            self._inclusion_bounds.lower,\n            self._inclusion_bounds.upper,\n            self._exclusion_bounds,",
-     "            self._inclusion_bounds.lower,\n            self._inclusion_bounds.upper,\n            None,",
-     "C04.REPORT"),
-    ("single-point bounds treated as a conflict", MAT,
-     "            if upper_bound < lower_bound:\n                break",
-     "            if upper_bound <= lower_bound:\n                break", "C04.ADOPT"),
-    ("empty proposal re-clamps the inherited target", MAT,
-     "            if next_proposal.preferred_power:\n                match _bounds.clamp_to_bounds(\n                    next_proposal.preferred_power,",
-     "            if next_proposal.preferred_power or target_power:\n                match _bounds.clamp_to_bounds(\n                    next_proposal.preferred_power or target_power,",
-     "C04.NOOP"),
-]
+# ---------------------------------------------------------------------------------------------
+def check_store(run: Run, prog: Program) -> None:
+    """Whatever its shape, the proposal handed to calculate_target_power is a member of the bucket
+    the sweep is run over (it replaces the actor's previous one; it is never dropped)."""
+    ct = prog.func(CTP)
+    calc = prog.func(CALC)
+    run.analysed(ct.qual)
+    if len(ct.params) != 5 or ct.cls is None:
+        raise AnalysisError(f"{ct.qual}: expected (self, component_ids, proposal, system_bounds, must_return_power)")
+    it = StoreInterp(prog, prog.module(MAT))
+    ctx: dict[str, Any] = {}
+    scenarios = ["first proposal of the group", "replaces the actor's previous proposal",
+                 "joins another actor's proposal"]
+
+    def make_args() -> dict[str, Any]:
+        it.globals["__ZERO__"] = Atom("ZERO")
+        zero = it.globals["__ZERO__"]
+        sl, su = Atom("sysL"), Atom("sysU")
+        it.assume("<=", sl, zero)
+        it.assume("<=", zero, su)
+        sysb = Obj("SystemBounds", inclusion_bounds=Obj("Bounds", lower=sl, upper=su), exclusion_bounds=None)
+        sc = it.choose(len(scenarios), "bucket before the call")
+        p = mk_proposal(it, tag="new")
+        p.fields["priority"] = 3
+        buckets: dict[str, Any] = {}
+        if sc == 1:
+            old = mk_proposal(it, tag="old", shapes=[(1, 1, 1)])
+            old.fields.update(priority=3, source_id=p.fields["source_id"])
+            buckets["ids"] = {it.key(old)}
+        elif sc == 2:
+            other = mk_proposal(it, tag="other", shapes=[(1, 1, 1)])
+            other.fields["priority"] = 4
+            buckets["ids"] = {it.key(other)}
+        so = Obj(ct.cls.name, _component_buckets=buckets, _target_power={})  # type: ignore[union-attr]
+        ctx.update(p=p, so=so)
+        return dict(zip(ct.params, (so, "ids", p, sysb, False)))
+
+    def post(_res: Any) -> Any:
+        if len(it.stub_calls) != 1:
+            return ("bad", [f"the target is computed {len(it.stub_calls)} time(s) for a new proposal"])
+        pos, kw = it.stub_calls[0]
+        bucket = pos[0] if pos else kw.get(calc.params[1])
+        if not isinstance(bucket, (set, frozenset, list, tuple)):
+            return ("shape", f"the sweep is run over {bucket!r}, not over a bucket of proposals")
+        keys = {it.key(x) for x in bucket}
+        if it.key(ctx["p"]) not in keys:
+            return ("bad", ["the proposal handed to calculate_target_power is not in the bucket the sweep is "
+                            "run over: its bounds and preference are dropped (a proposal of this shape counts as "
+                            "a withdrawal), so lower priorities are no longer restricted by it"])
+        return None
+
+    outs = it.explore(ct.node, make_args, post)
+    _report_orderings(run, "C04.STORE", ct, outs, "every proposal, whatever its shape, is in the bucket the "
+                      "sweep runs over")
+    if len(outs) < 24:
+        raise AnalysisError(f"{ct.qual}: only {len(outs)} abstract paths")
+
+
+# ---------------------------------------------------------------------------------------------
+# seeded controls, located by structure in the tree under analysis (whole-source replacements, so
+# they survive renamed locals, rewritten control flow, keyword arguments and extracted helpers)
+# ---------------------------------------------------------------------------------------------
+def _is_name(n: ast.AST, ident: str | None) -> bool:
+    return isinstance(n, ast.Name) and n.id == ident
+
+
+def _scope(prog: Program, sw: Sweep) -> list[ast.AST]:
+    """Loop body of the sweep plus the bodies of the private helpers it reaches (same module)."""
+    out: list[ast.AST] = list(sw.loop.body)
+    for h in reach(prog, sw.fn)[1:]:
+        out.extend(h.node.body)
+    return out
+
+
+def structural_controls(prog: Program) -> list[tuple[str, str, str, str, str]]:  # noqa: C901
+    out: list[tuple[str, str, str, str, str]] = []
+
+    def add(name: str, module: str, edits: list[tuple[ast.AST, str]], rule: str) -> None:
+        src = prog.module(module).source
+        if edits:
+            out.append((name, module, src, splice(src, edits), rule))
+        else:  # site not found in this shape of the code: reported as skipped by run_controls
+            out.append((name, module, "\0site not located\0", "", rule))
+
+    def compares(nodes: list[ast.AST]) -> list[ast.Compare]:
+        return [n for s in nodes for n in walk_no_nested(s) if isinstance(n, ast.Compare)]
+
+    swc, sws = calc_sweep(prog), stat_sweep(prog)
+    mat_src = prog.module(MAT).source
+
+    # 1. the lower edge of the zone counts as inside the zone
+    ov = prog.func(f"{BOUNDS}:check_exclusion_bounds_overlap")
+    edits: list[tuple[ast.AST, str]] = []
+    for c in compares(list(ov.node.body)):
+        for i, a, _op, b in compare_pairs(c):
+            for x, y in ((a, b), (b, a)):
+                if _is_name(x, ov.params[0]) and isinstance(y, ast.Attribute) and y.attr == "lower" and not edits:
+                    t = flip_strict(c, i)
+                    if t:
+                        edits.append((c, t))
+    add("zone edge treated as inside", BOUNDS, edits, "C04.KEEP")
+
+    # 2. the priority cut of get_status loses / gains the equal priority
+    edits = []
+    for c in compares(_scope(prog, sws)):
+        for i, a, _op, b in compare_pairs(c):
+            for x, y in ((a, b), (b, a)):
+                if isinstance(x, ast.Attribute) and x.attr == "priority" and _is_name(y, sws.fn.params[2]) and not edits:
+                    t = flip_strict(c, i)
+                    if t:
+                        edits.append((c, t))
+    add("priority cut moved by one", MAT, edits, "C04.SIB")
+
+    # 3. the report sweep narrows the lower bound with the wrong running bound
+    edits = []
+    for n in (n for s in sws.loop.body for n in walk_no_nested(s)):
+        if isinstance(n, ast.Call) and _is_name(n.func, "max") and not edits:
+            hit = [a for a in n.args if _is_name(a, sws.L)]
+            edits.append((hit[0], sws.U) if hit else (n.func, "min"))
+    add("report sweep narrows with the wrong bound", MAT, edits, "C04.SIB")
+
+    # 4. the distance test points the other way
+    edits = []
+    for c in compares(_scope(prog, swc)):
+        if len(c.ops) == 1 and not edits and all(
+                any(isinstance(x, ast.BinOp) for x in ast.walk(side)) for side in (c.left, c.comparators[0])):
+            t = mirror(c, 0)
+            if t:
+                edits.append((c, t))
+    add("tie test flipped", MAT, edits, "C04.TIE")
+
+    # 5. adjust_to_bounds forgets the report's exclusion zone
+    ab = prog.func(f"{BASE}:_Report.adjust_to_bounds")
+    cl = prog.func(f"{BOUNDS}:clamp_to_bounds")
+    edits = []
+    for n in walk_no_nested(ab.node):
+        if isinstance(n, ast.Call) and ast.unparse(n.func).endswith("clamp_to_bounds") and not edits:
+            arg = positional(n, cl.params).get(cl.params[3])
+            if arg is not None:
+                edits.append((arg, "None"))
+    add("adjust_to_bounds uses other bounds", BASE, edits, "C04.REPORT")
+
+    # 6. single-point running bounds treated as a conflict
+    edits = []
+    for c in compares(list(swc.loop.body)):
+        for i, a, _op, b in compare_pairs(c):
+            if {getattr(a, "id", None), getattr(b, "id", None)} == {swc.L, swc.U} \
+                    and isinstance(a, ast.Name) and isinstance(b, ast.Name) and not edits:
+                t = flip_strict(c, i)
+                if t:
+                    edits.append((c, t))
+    add("single-point bounds treated as a conflict", MAT, edits, "C04.ADOPT")
+
+    # 7. a proposal without a preference re-clamps the inherited target
+    edits = []
+    for n in (n for s in swc.loop.body for n in walk_no_nested(s)):
+        if isinstance(n, ast.Attribute) and n.attr == "preferred_power" and _is_name(n.value, swc.pv) \
+                and isinstance(n.ctx, ast.Load):
+            seg = ast.get_source_segment(mat_src, n)
+            if seg:
+                edits.append((n, f"({seg} or {swc.T})"))
+    add("empty proposal re-clamps the inherited target", MAT, edits, "C04.NOOP")
+
+    # 8. an upper-bound-only proposal is treated as a withdrawal
+    ct = prog.func(CTP)
+    edits = []
+    for h in reach(prog, ct):
+        if h.name == swc.fn.name:
+            continue
+        for n in walk_no_nested(h.node):
+            if isinstance(n, ast.Expr) and isinstance(n.value, ast.Call) and isinstance(n.value.func, ast.Attribute) \
+                    and n.value.func.attr == "add" and len(n.value.args) == 1 and not edits:
+                a = ast.unparse(n.value.args[0])
+                edits.append((n, f"if {a}.preferred_power is not None or {a}.bounds.lower is not None: "
+                                 f"{ast.unparse(n)}"))
+    add("upper-bound-only proposal not stored", MAT, edits, "C04.STORE")
+    return out
 
 
 def run_rules(run: Run, prog: Program, tier: str = "quick") -> None:
     check_keep(run, prog)
     check_sib(run, prog)
     check_adopt(run, prog, tier)
-    check_tie(run, prog)
     check_report(run, prog)
+    check_store(run, prog)
 
 
 def check(run: Run, prog: Program, tier: str) -> str:
     run.rule("C04.SIB", "report sweep and target sweep agree per iteration on the conflict-free "
-             "domain; the report sweep stops at priorities <= own")
+             "domain and on their initial state; the report sweep ignores priorities <= own")
     run.rule("C04.KEEP", "zone carving never cuts an admissible value of the range")
     run.rule("C04.ADOPT", "admissible preference adopted unchanged; otherwise nearest admissible "
              "input value on its side")
-    run.rule("C04.TIE", "two-sided case chosen by distance to the preferred power, right orientation")
+    run.rule("C04.TIE", "two-sided case: the chosen zone edge is proved closer (or as close) to the "
+             "preferred power by the tested distance relation")
     run.rule("C04.NOOP", "a proposal with neither power nor bounds is equivalent to no proposal")
-    run.rule("C04.REPORT", "adjust_to_bounds == the manager's clamp over the report's own bounds")
+    run.rule("C04.REPORT", "adjust_to_bounds == the manager's clamp over the report's own bounds; "
+             "get_status reports the swept bounds with the system exclusion zone")
+    run.rule("C04.STORE", "every proposal handed to calculate_target_power, whatever its shape, is in the "
+             "bucket the sweep is run over")
     check_quantity_truthiness(run)
     run_rules(run, prog, tier)
     run.floor("C04.SIB", 100)
@@ -396,22 +716,26 @@ def check(run: Run, prog: Program, tier: str) -> str:
     run.floor("C04.KEEP", 10)
     run.floor("C04.NOOP", 5)
     run.floor("C04.REPORT", 5)
+    run.floor("C04.TIE", 2)
+    run.floor("C04.STORE", 24)
     from ..engine.controls import run_controls
 
     def select(expect: str):
         return {"C04.KEEP": lambda r, p: check_keep(r, p), "C04.SIB": lambda r, p: check_sib(r, p),
                 "C04.ADOPT": lambda r, p: check_adopt(r, p, "quick"),
                 "C04.NOOP": lambda r, p: check_adopt(r, p, "quick"),
-                "C04.TIE": lambda r, p: check_tie(r, p),
-                "C04.REPORT": lambda r, p: check_report(r, p)}[expect]
+                "C04.TIE": lambda r, p: check_adopt(r, p, "quick"),
+                "C04.REPORT": lambda r, p: check_report(r, p),
+                "C04.STORE": lambda r, p: check_store(r, p)}[expect]
 
-    run_controls(run, CONTROLS, run_rules, tier, select=select)
+    run_controls(run, structural_controls(prog), run_rules, tier, base_prog=prog, select=select)
     run.undecided("optimality over conflicting proposal sets (outside the quantifier); end-to-end "
                   "'lowest-priority preference wins' follows from the sweep overwriting the target "
                   "in descending priority order, which is the loop structure checked under C03.ORD")
     run.extra_cov["exhaustive"] = True
-    return ("Order-domain abstract interpretation: the report sweep and the target sweep are run on "
-            "the same symbolic state inside one abstract run and must agree on the conflict-free "
-            "domain; adoption / nearest-admissible / no-op are post-conditions of one generic sweep "
-            "iteration decided by consistency of partial preorders (no solver); tie orientation is a "
-            "polynomial normal-form rule; report/manager agreement is call provenance.")
+    return ("Order-domain abstract interpretation: the roles of both sweeps are bound by dataflow; the "
+            "report sweep and the target sweep are run on the same symbolic state inside one abstract "
+            "run and must agree on the conflict-free domain; adoption / nearest-admissible / no-op are "
+            "post-conditions of one generic sweep iteration decided by consistency of partial "
+            "preorders (no solver); tie orientation is decided from the linear fact the path tests; "
+            "report/manager agreement is equality of results of the two calls inside one abstract run.")
